@@ -72,13 +72,23 @@ type Opts struct {
 	VoteOneIn       int
 	FailOneIn       int
 	V0OneIn         int
-	NoPosIndexOneIn int // not used by default (0): transactions always carry a position index
+	// FailOtherKindOneIn: 1/k of the failed transactions fail with AccountInUse instead of InstructionError/Custom
+	FailOtherKindOneIn int
+	NoPosIndexOneIn    int // not used by default (0): transactions always carry a position index
 	// Universe: when non-empty, the non-fee-payer account keys are drawn from this small set
 	Universe []solana.PublicKey
 	// KeyHook lets a test force specific accounts into a transaction (appended to the static keys).
 	KeyHook func(slot uint64, pos int) []solana.PublicKey `json:"-"`
 	// TrailingJunkFrames adds n orphan DataFrame sections after the last block (before Subset/Epoch).
 	TrailingJunkFrames int
+	// SigEdgeOneIn: 1/k transactions get a first signature whose two-byte prefix is a boundary value
+	SigEdgeOneIn int
+	// BlocktimeEdgeOneIn: 1/k blocks get a block time from {1, 2^31-1, 2^31, 2^32-1}
+	BlocktimeEdgeOneIn int
+	// LastSlot appends the last slot of the epoch (base+431999) to the generated slot list
+	LastSlot bool
+	// HeightStart: block height of the first block (default epoch*400000+7); -1 => 0
+	HeightStart int64
 	// SubsetEvery: blocks per Subset node (default: all in one subset)
 	SubsetEvery int
 	// ExtraHeaderRoots is not supported by the indexer (needs exactly one root); kept 0.
@@ -93,25 +103,27 @@ type Section struct {
 }
 
 type Tx struct {
-	Sig      solana.Signature
-	Sigs     []solana.Signature
-	Raw      []byte // serialized solana transaction
-	MetaRaw  []byte // uncompressed protobuf TransactionStatusMeta (nil if none)
-	MetaZ    []byte // compressed, as stored
-	Slot     uint64
-	Pos      int
-	Static   []solana.PublicKey
-	LoadedW  []solana.PublicKey
-	LoadedR  []solana.PublicKey
-	IsVote   bool
-	Failed   bool
-	V0       bool
-	Fee      uint64
-	Cid      cid.Cid
-	Offset   uint64
-	Len      uint64
-	NFramesD int
-	NFramesM int
+	Sig     solana.Signature
+	Sigs    []solana.Signature
+	Raw     []byte // serialized solana transaction
+	MetaRaw []byte // uncompressed protobuf TransactionStatusMeta (nil if none)
+	MetaZ   []byte // compressed, as stored
+	Slot    uint64
+	Pos     int
+	Static  []solana.PublicKey
+	LoadedW []solana.PublicKey
+	LoadedR []solana.PublicKey
+	IsVote  bool
+	Failed  bool
+	V0      bool
+	// FailOtherKind: failed with a TransactionError other than InstructionError/Custom
+	FailOtherKind bool
+	Fee           uint64
+	Cid           cid.Cid
+	Offset        uint64
+	Len           uint64
+	NFramesD      int
+	NFramesM      int
 }
 
 // Mentions reports whether the transaction mentions the key (static or address-table loaded).
@@ -384,6 +396,9 @@ func Generate(path string, o Opts) (*Model, error) {
 			slots = append(slots, s)
 		}
 	}
+	if o.LastSlot && (len(slots) == 0 || slots[len(slots)-1] != base+SlotsPerEpoch-1) {
+		slots = append(slots, base+SlotsPerEpoch-1)
+	}
 	if len(slots) == 0 {
 		return nil, fmt.Errorf("no slots")
 	}
@@ -424,6 +439,11 @@ func Generate(path string, o Opts) (*Model, error) {
 		parent = base - 1
 	}
 	height := o.Epoch*400000 + 7
+	if o.HeightStart > 0 {
+		height = uint64(o.HeightStart)
+	} else if o.HeightStart < 0 {
+		height = 0
+	}
 	var pendingSubsets []func()
 	_ = pendingSubsets
 	for bi, slot := range slots {
@@ -534,6 +554,9 @@ func Generate(path string, o Opts) (*Model, error) {
 			rewardsLink = cidlink.Link{Cid: e.add(&rn, ipldbindcode.Prototypes.Rewards, KindRewards)}
 		}
 		b.Blocktime = 1_600_000_000 + int64(slot%1_000_000)*2 + int64(rng.Intn(2))
+		if oneIn(rng, o.BlocktimeEdgeOneIn) {
+			b.Blocktime = []int64{1, 1<<31 - 1, 1 << 31, 1<<32 - 1}[rng.Intn(4)]
+		}
 		b.Height = height
 		b.HasHeight = true
 		height++
@@ -634,6 +657,8 @@ func Generate(path string, o Opts) (*Model, error) {
 	return m, nil
 }
 
+var sigEdges = [][2]byte{{0, 0}, {0, 1}, {0, 0xff}, {1, 0}, {0xff, 0}, {0xff, 0xfe}, {0xff, 0xff}, {0x7f, 0xff}, {0x80, 0}}
+
 func genTx(rng *rand.Rand, o *Opts, slot uint64, pos int) *Tx {
 	t := &Tx{Slot: slot, Pos: pos}
 	nsig := 1
@@ -650,6 +675,10 @@ func genTx(rng *rand.Rand, o *Opts, slot uint64, pos int) *Tx {
 		var s solana.Signature
 		rng.Read(s[:])
 		t.Sigs = append(t.Sigs, s)
+	}
+	if oneIn(rng, o.SigEdgeOneIn) {
+		e := sigEdges[rng.Intn(len(sigEdges))]
+		t.Sigs[0][0], t.Sigs[0][1] = e[0], e[1]
 	}
 	t.Sig = t.Sigs[0]
 	pick := func() solana.PublicKey {
@@ -753,8 +782,15 @@ func genTx(rng *rand.Rand, o *Opts, slot uint64, pos int) *Tx {
 		cu := uint64(rng.Intn(200000))
 		meta.ComputeUnitsConsumed = &cu
 		if t.Failed {
-			// bincode TransactionError::AccountInUse (variant 0, u32 LE)
-			meta.Err = &confirmed_block.TransactionError{Err: []byte{0, 0, 0, 0}}
+			if oneIn(rng, o.FailOtherKindOneIn) {
+				// bincode TransactionError::AccountInUse (variant 0, u32 LE)
+				meta.Err = &confirmed_block.TransactionError{Err: []byte{0, 0, 0, 0}}
+				t.FailOtherKind = true
+			} else {
+				// bincode TransactionError::InstructionError(0, InstructionError::Custom(code))
+				code := uint32(rng.Intn(6000))
+				meta.Err = &confirmed_block.TransactionError{Err: []byte{8, 0, 0, 0, 0, 25, 0, 0, 0, byte(code), byte(code >> 8), 0, 0}}
+			}
 		}
 		mr, err := proto.Marshal(meta)
 		if err != nil {
